@@ -16,6 +16,9 @@ RULE = (
     'right-hand sides, one- and two-row frames, single-level / empty-level / blank-level categorical '
     'responses, one model description evaluated by DesignMatrices on two frames and with two Environment '
     'objects. '
+    'Later: rows dropped for a missing predictor (stateful, call, categorical, prop responses), blank-run '
+    'levels, float-stored whole counts, frames of 1500 rows, C(kd) responses, right-hand sides containing the '
+    "response, the caller's copies overwritten. "
 )
 ASSUMPTIONS = ["'y - z ~ x' and 'y + y ~ x' reduce to the single term y by the term algebra and are not treated as multi-term responses"]
 
